@@ -14,7 +14,9 @@ pub enum Op {
 #[derive(Clone, Debug, PartialEq)]
 pub enum Res { Unit, Node(u32), Bool(bool), OptVal(Option<GV>), AddAttr(Option<GV>), NoEdge, Attrs(Vec<(String, GV)>), Nodes(Vec<u32>), Count(usize), Skipped }
 
-const NAMES: &[&str] = &["a", "b", "name", "k1", "k2", "ty-pe", "x_y"];
+const NAMES: &[&str] = &["a", "b", "name", "k1", "k2", "ty-pe", "x_y",
+    // longer than 32 bytes (ASCII and not): lookups by `&str` and by `Identifier` must agree for every name
+    "a_rather_long_attribute_name_of_more_than_32_bytes", "éééééééééééééééééééé", "Name"];
 pub const SRC: &str = "x = f(1, y)\nq = a.b.c + g()() + 1\npass\n";
 
 impl Op {
@@ -209,7 +211,7 @@ fn run_vars<'a, 't>(ops: &[Op], mut i: usize, graph: &mut Graph<'t>, tree: &Tree
                 None => Res::Skipped },
             Op::EdgeAttrGet(a, b, k) => match nref(graph, *a) {
                 Some(ar) => match graph[ar].get_edge(fake_ref(graph, *b)) {
-                    Some(e) => Res::OptVal(e.attributes.get(&Identifier::from(k.as_str())).map(|v| GV::from_value(v, graph, tree))),
+                    Some(e) => { let by_str = e.attributes.get(k.as_str()).is_some(); let r = e.attributes.get(&Identifier::from(k.as_str())).map(|v| GV::from_value(v, graph, tree)); if by_str != r.is_some() { Res::OptVal(Some(GV::Str("GET-BY-STR-DISAGREES-WITH-GET-BY-IDENTIFIER".into()))) } else { Res::OptVal(r) } }
                     None => Res::NoEdge },
                 None => Res::Skipped },
             Op::NodeAttrAdd(a, k, v) => match nref(graph, *a) {
@@ -218,7 +220,7 @@ fn run_vars<'a, 't>(ops: &[Op], mut i: usize, graph: &mut Graph<'t>, tree: &Tree
                     Res::AddAttr(r.err().map(|old| GV::from_value(&old, graph, tree))) }
                 None => Res::Skipped },
             Op::NodeAttrGet(a, k) => match nref(graph, *a) {
-                Some(ar) => Res::OptVal(graph[ar].attributes.get(&Identifier::from(k.as_str())).map(|v| GV::from_value(v, graph, tree))),
+                Some(ar) => { let by_str = graph[ar].attributes.get(k.as_str()).is_some(); let r = graph[ar].attributes.get(&Identifier::from(k.as_str())).map(|v| GV::from_value(v, graph, tree)); if by_str != r.is_some() { Res::OptVal(Some(GV::Str("GET-BY-STR-DISAGREES-WITH-GET-BY-IDENTIFIER".into()))) } else { Res::OptVal(r) } }
                 None => Res::Skipped },
             Op::NodeAttrIter(a) => match nref(graph, *a) {
                 Some(ar) => Res::Attrs(sorted_attrs(graph[ar].attributes.iter(), graph, tree)),
